@@ -19,7 +19,7 @@ RULE = ('2-4 criteria at distinct positions in 1..9 (gaps, flags in random permu
 ASSUMPTIONS = ['reference measures in rv/refmodel.py', 'CBC decides the pin-probe programs correctly']
 PROFILE = {'name': 'c04', 'spec': {'shapes': ['dense', 'dense', 'long_lists', 'lowerq', 'tight_lecturer', 'big_targets',
                                               'one_lecturer', 'no_ties', 'all_tied', 'lec_gt_students']},
-           'opts': {'ncrit_choices': [2, 2, 2, 3, 3, 4]}, 'medium_rate': 0.15}
+           'opts': {'ncrit_choices': [2, 2, 2, 3, 3, 4]}, 'medium_rate': 0.15, 'shipped_rate': 0.02}
 
 
 def plan(tier):
